@@ -1,6 +1,7 @@
 package phase0
 
 import (
+	"encoding/json"
 	"github.com/protolambda/zrnt/eth2/beacon/common"
 	"github.com/protolambda/ztyp/codec"
 	"github.com/protolambda/ztyp/tree"
@@ -8,6 +9,13 @@ import (
 )
 
 type Balances []common.Gwei
+
+func (li Balances) MarshalJSON() ([]byte, error) {
+	if li == nil {
+		return []byte("[]"), nil // encode as empty list, not null
+	}
+	return json.Marshal([]common.Gwei(li))
+}
 
 func (a *Balances) Deserialize(spec *common.Spec, dr *codec.DecodingReader) error {
 	return dr.List(func() codec.Deserializable {
